@@ -8,6 +8,7 @@
   the document list.
 -/
 import Lungo.Model.Api
+import Lungo.Model.Session
 import Lungo.Spec.I64Ok
 namespace Lungo
 
@@ -90,6 +91,9 @@ def FiltersTotal (sch : SchemaEval) (c : Coll) (d : Doc) : Prop :=
 /-- the `_id_` index with its fixed definition is present -/
 def IdIndexPresent (c : Coll) : Prop := ∃ i, ("_id_", i) ∈ c.indexes ∧ i.config = idIndexConfig
 
+/-- index names are pairwise distinct (the association list represents the Go map `Indexes`) -/
+def NamesDistinct (c : Coll) : Prop := (c.indexes.map (·.1)).Nodup
+
 /-- catalog-level invariant (C15 + the side conditions the transitions rely on) -/
 structure Inv (sch : SchemaEval) (cat : Catalog) (nextId : Nat) : Prop where
   coherent : ∀ h c, (h, c) ∈ cat.namespaces → Coherent sch c
@@ -98,6 +102,8 @@ structure Inv (sch : SchemaEval) (cat : Catalog) (nextId : Nat) : Prop where
   /-- the oplog collection has no index (events are appended without index maintenance) -/
   oplogBare : ∀ c, (oplogHandle, c) ∈ cat.namespaces → c.indexes = []
   idIndex : ∀ h c, (h, c) ∈ cat.namespaces → h ≠ oplogHandle → IdIndexPresent c
+  /-- the index association lists are maps -/
+  names : ∀ h c, (h, c) ∈ cat.namespaces → NamesDistinct c
 
 /-- catalog-level uniqueness -/
 def UniqueCat (sch : SchemaEval) (cat : Catalog) : Prop :=
@@ -119,5 +125,11 @@ def Sys.run (sch : SchemaEval) (s : Sys) (calls : List (Call × List V)) : Sys :
   calls.foldl (fun s co => match Sys.step sch s co.1 co.2 with
     | .ok (s', _) => s'
     | .error _ => s) s
+
+/-- the invariant of the session-level system: the committed catalog and the catalog of every open
+    session transaction satisfy `Inv` (all with the one global identity counter) -/
+def SSysInv (sch : SchemaEval) (s : SSys) : Prop :=
+  SysInv sch s.sys ∧
+  ∀ k st t, (k, st) ∈ s.sessions → st.txn = some t → Inv sch t.catalog s.sys.nextId
 
 end Lungo
